@@ -37,3 +37,24 @@ def load(repo, relpath, qualname):
                     for a in m.names:
                         imports[a.asname or a.name] = a.name
     return node, imports, hashlib.sha256(seg.encode()).hexdigest()[:16], node.lineno
+
+
+def loop_shape(fndef):
+    """loop nest signature of a function: F = for, W = while, nesting by parentheses, in source order"""
+    def rec(stmts):
+        out = []
+        for st in stmts:
+            if isinstance(st, (ast.FunctionDef, ast.AsyncFunctionDef, ast.ClassDef)):
+                continue
+            if isinstance(st, (ast.For, ast.While)):
+                inner = rec(st.body) + rec(st.orelse)
+                out.append(("F" if isinstance(st, ast.For) else "W") + ("(" + inner + ")" if inner else ""))
+                continue
+            for field in ("body", "orelse", "finalbody"):
+                sub = getattr(st, field, None)
+                if isinstance(sub, list):
+                    out.append(rec(sub))
+            for h in getattr(st, "handlers", []) or []:
+                out.append(rec(h.body))
+        return "".join(x for x in out if x)
+    return rec(fndef.body)
